@@ -282,6 +282,13 @@ class LockModel(object):
         v = self.late_acquire(w, hist)
         if v:
             return v
+        # a client only ever holds what it asked for
+        asked = set((ev[1], ev[2]) for ev in hist if ev[0] == 'acq')
+        for lk in self.locks:
+            for c in range(self.nc):
+                if (c, lk) not in asked and w.mgrs[c].isAcquired(lk):
+                    return core.Violation('C16 client %d holds lock %r (isAcquired) although it never called tryAcquire for it (history %r)' % (
+                        c, lk, list(hist)), sig='holds-unrequested-lock')
         return self.obtainable(hist, w)
 
     def late_acquire(self, w, hist):
@@ -352,6 +359,31 @@ class LockModel(object):
                 if not got or not got[-1][3] or got[-1][4] != 0:
                     return core.Violation('C16 lock %r is not obtainable by client %d after the auto-unlock time although nobody prolongs it '
                                           '(history %r, result %r)' % (lk, c, list(hist), got[-1] if got else None), sig='not-obtainable')
+        # variant: only the clients that asked for the lock stop; every other client's prolongation loop keeps running
+        # (it prolongs that client's own locks), which must not keep somebody else's expired lock alive
+        asked = set((ev[1], ev[2]) for ev in hist if ev[0] == 'acq')
+        for lk in self.locks:
+            others = [c for c in range(self.nc) if (c, lk) not in asked]
+            for p in others:
+                for c in range(self.nc):
+                    if c == p:
+                        continue
+                    w = self.build(list(hist))
+                    if not self.drain(w):
+                        return core.Violation('C16 applying pending entries never quiesces', sig='apply-storm')
+                    self.step(w, ('time', T + EPS))
+                    self.step(w, ('prolong', p))
+                    if not self.drain(w):
+                        return core.Violation('C16 applying pending entries never quiesces', sig='apply-storm')
+                    n0 = len(w.results)
+                    self.step(w, ('acq', c, lk))
+                    if not self.drain(w):
+                        return core.Violation('C16 applying pending entries never quiesces', sig='apply-storm')
+                    got = [r for r in w.results[n0:] if r[0] == c and r[1] == 'acq' and r[2] == lk]
+                    if not got or not got[-1][3] or got[-1][4] != 0:
+                        return core.Violation('C16 lock %r is not obtainable by client %d after the auto-unlock time: client %d, which never '
+                                              'asked for it, went on prolonging its own locks (history %r, result %r)' % (
+                                                  lk, c, p, list(hist), got[-1] if got else None), sig='not-obtainable-others-prolong')
         return None
 
 
